@@ -40,6 +40,16 @@ Definition safe_value_methods : list string :=
 (* classes imported from the safe modules that the code instantiates *)
 Definition safe_imported_callables : list string := ["SequenceMatcher"; "date_type"].
 
+(* in-place mutation is only known to be safe on containers the function created itself: the sites are
+   enumerated (enclosing function, method, receiver); any other mutating call on a value is outside the set *)
+Definition safe_mutator_sites : list (string * string * string) :=
+  [("ExpressionContext.get_months", "add", "months"); ("ExpressionContext.get_tags", "add", "tags");
+   ("ExpressionContext.get_by", "append", "groups.setdefault(key, [])"); ("ExpressionContext.get_by", "setdefault", "groups");
+   ("TransactionEvaluator._eval_Attribute", "extend", "available");
+   ("TransactionEvaluator._eval_comprehension_loop", "append", "result")].
+Definition triple_eqb (x y : string * string * string) : bool :=
+  let '(a, b, c) := x in let '(d, e, f) := y in (String.eqb a d && String.eqb b e && String.eqb c f)%bool.
+
 Definition safe_local_sources : list string :=
   ["localdef"; "from:self.ctx.get_function"; "from:self.functions.get"].
 
@@ -57,6 +67,7 @@ Definition safe_cap (defined : list string) (c : string * string * string * stri
   else if String.eqb kind "call_local" then (mem b safe_local_sources || (String.eqb a "cls" && String.eqb b "param"))%bool
   else if String.eqb kind "call_self" then negb (starts_with "__" b)
   else if String.eqb kind "call_value_attr" then mem a safe_value_methods
+  else if String.eqb kind "mutator_call" then existsb (triple_eqb (where_, a, b)) safe_mutator_sites
   else if String.eqb kind "getattr" then (safe_getattr_recv a && safe_getattr_name b)%bool
   else if String.eqb kind "hasattr" then (safe_getattr_recv a && safe_getattr_name b)%bool
   else if String.eqb kind "call_expr" then (String.eqb a "Call" && starts_with "Call(func=Name(id='getattr'" b)%bool
